@@ -98,6 +98,139 @@ func c10Worker(in []byte) interface{} {
 
 func init() { vf.RegisterWorker("c10", c10Worker) }
 
+// c10CallGraphErrorShapes: accepted by the compiler, rejected by call graph
+// resolution with more than one message (two inputs of one map call).
+var c10CallGraphErrorShapes = []string{`filetype csv;
+
+
+struct S1(
+    map<path> kappa6,
+    map<path> strict,
+    map<path> preflight2,
+)
+
+struct S2(
+    string vmem_gb,
+)
+
+stage ST3(
+    in  string[] exec "help for exec",
+    in  map<path> delta,
+    in  string nu "help for nu",
+    out map<path>[] theta6,
+    src comp "/bin/true ST3",
+) using (
+    threads = 1,
+) retain (
+    theta6,
+)
+
+stage ST4(
+    in  map<path> split,
+    in  map<path> zeta,
+    out map<path>[] vmem_gb,
+    src comp "/bin/true ST4",
+) using (
+) retain (
+    vmem_gb,
+)
+
+stage ST5(
+    in  map<path> lam4 "new\nline",
+    in  map<path> lam4_x,
+    in  S1 lam4_x_x,
+    out S1 beta,
+    out string[] out7,
+    out string[][] out7_x,
+    src comp "/bin/true ST5",
+) using (
+    threads = 1,
+)
+
+stage ST8(
+    in  map<path> disabled7,
+    out map<path>[] kappa6,
+    out string[] delta,
+    src comp "/bin/true ST8",
+) using (
+    threads = 2,
+)
+
+pipeline PL9(
+    in  map<path> pin10 "input pin10",
+    in  string[] mem_gb,
+    in  string iota "input iota",
+
+    in  S1 delta1,
+    out map<path>[][] comp7,
+    out map<path>[] pout13,
+)
+{
+    map call volatile ST4(
+        split = split [
+            null,
+            {},
+        ],
+        zeta  = self.pin10,
+    )
+
+    call ST3 as AL11(
+        exec  = self.mem_gb,
+        delta = {
+            "k1": "/nonexistent/lit286",
+            "key two": null,
+            "a": "/nonexistent/lit677",
+        },
+        nu    = self.iota,
+    )
+
+    map call volatile ST5(
+        lam4     = split AL11.theta6,
+        lam4_x   = self.pin10,
+        lam4_x_x = {
+            kappa6: {
+                "a": "/nonexistent/lit936",
+                "b": "/nonexistent/lit305",
+
+                "key two": "/nonexistent/lit323",
+            },
+            strict: {
+                "k1": "/nonexistent/lit452",
+                "key two": "/nonexistent/lit161",
+                "b": null,
+            },
+            preflight2: {
+                "z9": "/nonexistent/lit197",
+            },
+        },
+    )
+
+    map call ST5 as AL12(
+        lam4     = split ST5.beta.kappa6,
+        lam4_x   = split ST5.beta.strict,
+        lam4_x_x = self.delta1,
+    )
+
+    return (
+        comp7  = ST4.vmem_gb,
+        pout13 = AL12.beta.preflight2,
+    )
+
+    retain (
+        AL11.theta6,
+    )
+}
+
+
+call PL9(
+    pin10  = {},
+    mem_gb = [],
+    iota   = "s334",
+    delta1 = null,
+)
+
+`}
+
 var bindLineRe = regexp.MustCompile(`(?m)^(\s+[a-z_][a-z0-9_]*\s+= )(self\.[a-z0-9_.]+|[A-Z][A-Z0-9]*\.[a-z0-9_.]+),$`)
 
 // breakProgram injects k independent compile errors.
@@ -154,6 +287,11 @@ func init() {
 				}
 			}
 			progs = append(progs, c10Input{Files: files, Reps: reps})
+			nontrivial = append(nontrivial, true)
+		}
+		// fixed shapes: programs whose call graph resolution reports several errors
+		for _, text := range c10CallGraphErrorShapes {
+			progs = append(progs, c10Input{Files: map[string]string{"main.mro": text}, Reps: reps})
 			nontrivial = append(nontrivial, true)
 		}
 		var inputs [][]byte
